@@ -711,8 +711,13 @@ fn run_case(gen: &str, index: u64, seed: u64, _tier: Tier, rep: &mut Report) {
                 webtransport: Some(bits & 2 == 2),
                 extended_connect: Some(bits & 4 == 4),
                 datagram: Some(bits & 8 == 8),
+                // every configuration is built with the builder methods called in several orders
+                call_order: 0,
             };
-            check_send(true, scfg, CliCfg::default(), bits & 1 == 1, rng.next(), rep);
+            for order in [0u8, 1 + rng.below(250) as u8, 1 + rng.below(250) as u8] {
+                rep.count(if order == 0 { "builder_call_order[as listed]" } else { "builder_call_order[shuffled]" });
+                check_send(true, SrvCfg { call_order: order, ..scfg }, CliCfg::default(), bits & 1 == 1, rng.next(), rep);
+            }
         }
         "recv_payloads" => {
             let e = gen_entries(&mut rng);
